@@ -266,7 +266,7 @@ def main(tier):
                 ck.add(r)
     for (p, can), oc in zip(CANARIES, outs[len(parts):]):
         ref = oc[0] == "ok" and not oc[1]["error"] and any(r["status"] != "proved" for r in oc[1]["results"])
-        ck.canaries.append((f"{can[0]}: {can[2][:50]!r} -> {can[3][:50]!r}", ref))
+        ck.canary(f"{can[0]}: {can[2][:50]!r} -> {can[3][:50]!r}", ref, oc)
     ck.bounded = {"evaluations": evals, "distinct_nontrivial": cases, "exhaustive": False,
                   "rule": "hand-built 5-branch cell (parents [-1,0,0,1,1], base ncomp [2,2,3,2,4], per-branch distinct uniform radius/length/capacitance/axial resistivity/channels, three groups): every branch x n in {1,2,3,4} plus 4 two-call sequences (thorough: more n and 9 two-branch sequences); "
                           "SWC files of tests/swc_files: first 4 branches and the last x n in {2,3,4} against read_swc(ncomp=n). A case = one accepted (module, call sequence)"}
